@@ -195,16 +195,26 @@ theorem pad32 (hl : Nat) (h : hl ≤ 1500) :
   simp only [Nat.reducePow]
   split <;> omega
 
+/-- the field of the `SampledHeader` just read that the regenerated composite literal `&RawHeader{F: h.G, …}` of
+`decodeSampledHeader` fills the record's field `F` from (`""` — a name nothing is read into — when the literal has no
+such element) -/
+def rawSrc (f : String) : String := (Gen.SflowLayouts.rawHeaderLiteral.lookup f).getD ""
+
+/-- `sflow.RawHeader` by field name, through the regenerated literal (F33) -/
+def rawHeaderOf (ρ : Env) (pkt : Option Pkt) : RawHeader :=
+  ⟨ρ.num (rawSrc "Protocol"), ρ.num (rawSrc "FrameLength"), ρ.num (rawSrc "Stripped"), ρ.num (rawSrc "HeaderLength"), pkt⟩
+
 /-- protocol, frame length, stripped, header length (at most 1500), then `HeaderLength` plus padding octets read
-with `Reader.Read` unless there are none, cut back to `HeaderLength`; the dissector runs on exactly these octets
-under the protocol read first -/
+with `Reader.Read` unless there are none, cut back to `HeaderLength`; the record is built from the four words by
+the regenerated literal; the dissector runs on exactly these octets under the protocol read first, its packet is
+kept when it succeeds -/
 theorem decodeSampledHeader_ir (bs : Bytes) :
     decodeSampledHeader bs =
       match run Gen.SflowLayouts.sampledHeader {} bs with
       | .done ρ r =>
         (match dissect (ρ.octets "Header") (ρ.num "Protocol") with
-         | .ok p => .ok (some p, r)
-         | .err _ => .ok (none, r)
+         | .ok p => .ok (rawHeaderOf ρ (some p), r)
+         | .err _ => .ok (rawHeaderOf ρ none, r)
          | .panic => .panic
          | .fuel => .fuel)
       | .fail e => failAs e
@@ -224,7 +234,8 @@ theorem decodeSampledHeader_ir (bs : Bytes) :
   rcases hr : readHdr (beN b4 + (4 - beN b4 % 4) % 4) r4 with _ | ⟨buf, r5⟩ <;> rows_unfold
   have hb := (readHdr_some hr).1
   rw [slice?_le (Nat.zero_le _) (by omega)]
-  simp only [List.drop_zero, Nat.sub_zero]
+  simp only [List.drop_zero, Nat.sub_zero, rawHeaderOf, rawSrc, Gen.SflowLayouts.rawHeaderLiteral]
+  rows_unfold
   rfl
 
 /-! ## the extended-router record (`ExtRouterData.unmarshal`) -/
@@ -316,7 +327,7 @@ theorem flowRecord_ir (bs : Bytes) :
         | none => .err .eof
         | some (len, r2) =>
           if callee Gen.SflowLayouts.flowRecordDispatch fmt = some "decodeSampledHeader" then
-            (decodeSampledHeader r2).mapFst (fun o => o.map FlowRec.raw)
+            (decodeSampledHeader r2).mapFst (fun h => some (.raw h))
           else if callee Gen.SflowLayouts.flowRecordDispatch fmt = some "decodeExtSwitchData" then
             (decodeExtSwitch r2).mapFst (fun s => some (.sw s))
           else if callee Gen.SflowLayouts.flowRecordDispatch fmt = some "decodeExtRouterData" then
@@ -400,7 +411,7 @@ theorem tables :
     Gen.SflowLayouts.consts.lookup "SFTokenRingInterfaceCounters" = some 3 ∧
     Gen.SflowLayouts.consts.lookup "SF100BaseVGInterfaceCounters" = some 4 ∧
     Gen.SflowLayouts.consts.lookup "SFVLANCounters" = some 5 ∧ Gen.SflowLayouts.consts.lookup "SFProcessorCounters" = some 1001 ∧
-    Gen.SflowLayouts.flowRecordDispatch.map (fun p => (p.1, p.2.2)) = [(1, "RawHeader?"), (1001, "ExtSwitch"), (1002, "ExtRouter")] ∧
+    Gen.SflowLayouts.flowRecordDispatch.map (fun p => (p.1, p.2.2)) = [(1, "RawHeader"), (1001, "ExtSwitch"), (1002, "ExtRouter")] ∧
     Gen.SflowLayouts.counterDispatch.map (fun p => (p.1, p.2.2)) =
       [(1, "GenInt"), (2, "EthInt"), (3, "TRInt"), (4, "VGInt"), (5, "Vlan"), (1001, "Proc")] ∧
     Gen.SflowLayouts.sampleDispatchDefault = "d.reader.Seek(int64(sfDataLength), 1)" ∧
@@ -410,8 +421,11 @@ theorem tables :
     Gen.SflowLayouts.flowDecoders = [("decodeExtSwitchData", "ExtSwitchData"), ("decodeExtRouterData", "ExtRouterData")] ∧
     Gen.SflowLayouts.sampledHeaderDecoder =
       ["var ( h = new(SampledHeader) err error )", "if err = h.unmarshal(r); err != nil { return nil, err }",
-       "p := packet.NewPacket()", "d, err := p.Decoder(h.Header, h.Protocol)", "if err != nil { return nil, nil }",
-       "return d, nil"] ∧
+       "rh := &RawHeader{ Protocol: h.Protocol, FrameLength: h.FrameLength, Stripped: h.Stripped, HeaderLength: h.HeaderLength, }",
+       "p := packet.NewPacket()", "if d, err := p.Decoder(h.Header, h.Protocol); err == nil { rh.Packet = d }",
+       "return rh, nil"] ∧
+    Gen.SflowLayouts.rawHeaderLiteral =
+      [("Protocol", "Protocol"), ("FrameLength", "FrameLength"), ("Stripped", "Stripped"), ("HeaderLength", "HeaderLength")] ∧
     (Gen.SflowLayouts.datagramHeader ++ Gen.SflowLayouts.sampleInfo ++ Gen.SflowLayouts.flowSample ++
       Gen.SflowLayouts.counterSample ++ Gen.SflowLayouts.sampledHeader ++ Gen.SflowLayouts.extRouter).all Row.known = true := by
   decide +kernel
